@@ -14,8 +14,8 @@ checks_for() { case "$1" in
   C17_*) echo "C17";; C18_*) echo "C18";; C19_*) echo "C19";; C20_*) echo "C20";;
   R2_C01_a) echo "C01 C09";; R2_C01_b) echo "C01";; R2_C02_*) echo "C02";; R2_C03_*) echo "C03";; R2_C04_*) echo "C04";; R2_C08_*) echo "C08";; R2_C09_*) echo "C09";;
   R2_C10_*) echo "C10";; R2_C11_*) echo "C11";; R2_C17_*) echo "C17";; R2_C18_a) echo "C18 C04";; R2_C18_b) echo "C18 C10";;
-  R3_C*|R4_C*|R5_C*|R6_C*|R7_C*|R8_C*|R9_C*) echo "$1" | sed 's/R[3-9]_\(C[0-9]*\)_.*/\1/';; esac; }
-for d in /verif/seeded/C??_? /verif/seeded/R2_C??_? /verif/seeded/R3_C??_? /verif/seeded/R4_C??_? /verif/seeded/R5_C??_? /verif/seeded/R6_C??_? /verif/seeded/R7_C??_? /verif/seeded/R8_C??_? /verif/seeded/R9_C??_?; do
+  R3_C*|R4_C*|R5_C*|R6_C*|R7_C*|R8_C*|R9_C*|R10_C*) echo "$1" | sed 's/R[0-9]*_\(C[0-9]*\)_.*/\1/';; esac; }
+for d in /verif/seeded/C??_? /verif/seeded/R2_C??_? /verif/seeded/R3_C??_? /verif/seeded/R4_C??_? /verif/seeded/R5_C??_? /verif/seeded/R6_C??_? /verif/seeded/R7_C??_? /verif/seeded/R8_C??_? /verif/seeded/R9_C??_? /verif/seeded/R10_C??_?; do
   id=$(basename $d)
   [ -d "$d" ] || continue
   if [ -n "$ONLY" ]; then echo "$id" | grep -Eq "$ONLY" || continue; fi
